@@ -687,3 +687,23 @@ func lockSite() string {
 	}
 	return fmt.Sprintf("%s:%d", file, line)
 }
+
+// Alive lists the names (spawn sites) of managed threads that have not terminated, the calling
+// thread and daemons excluded. Meant to be called by a driver thread while it holds the baton.
+func Alive() []string {
+	var out []string
+	if !S.active {
+		return out
+	}
+	for _, t := range S.threads {
+		if t.done || t == S.cur || t.daemon {
+			continue
+		}
+		lbl := ""
+		if t.op != nil {
+			lbl = "@" + t.op.label
+		}
+		out = append(out, t.name+lbl)
+	}
+	return out
+}
